@@ -237,6 +237,15 @@ def judge_concat(res, out, snaps, dim):
         problems.append('stacked dimension %s has length %s, expected %d'
                         % (dim, len(out.dimensions[dim])
                            if dim in out.dimensions else None, total))
+    # every dimension keeps the record flag it has in the first file (the
+    # stacked one included)
+    for dk, (ln0, unl0) in snaps[0].dims.items():
+        if dk in out.dimensions and bool(
+                out.dimensions[dk].isunlimited()) != bool(unl0):
+            problems.append('dimension %s: unlimited flag %s in the pieces, '
+                            '%s in the stacked file' % (
+                                dk, bool(unl0),
+                                bool(out.dimensions[dk].isunlimited())))
     nontrivial = False
     for name, v0 in snaps[0].vars.items():
         if name not in out.variables:
